@@ -139,7 +139,7 @@ theorem good_notifyResult {s : State} (h : Inv s) (awaiter awaited : Nat) (res :
               -- virtual intermediate: the replaced value parked in transit
               have h0 : Inv { t1 with transit := old :: s1.transit } := by
                 refine inv_retain_add g.inv (l injected rfl) ⟨hheq.heap, hheq.refcounts, hheq.free,
-                  hheq.pendingFree, hheq.freed, hheq.fresh⟩ ?_
+                  hheq.pendingFree, hheq.freed, hheq.fresh, hheq.uaf⟩ ?_
                 intro i
                 have := key i
                 rw [hprev] at this
@@ -148,7 +148,7 @@ theorem good_notifyResult {s : State} (h : Inv s) (awaiter awaited : Nat) (res :
                 simp only [floating] at this ⊢
                 omega
               have g2 : GoodT s1 (release t1 old) := by
-                refine ⟨⟨inv_remove_release h0 ⟨rfl, rfl, rfl, rfl, rfl, rfl⟩ ?_,
+                refine ⟨⟨inv_remove_release h0 ⟨rfl, rfl, rfl, rfl, rfl, rfl, rfl⟩ ?_,
                   hst.trans (Stable.of_sameRoots (sameRoots_release _ old))⟩, ?_⟩
                 · intro i
                   show t1.countRefs i + t1.floating i + old.count i
@@ -409,5 +409,72 @@ theorem good_notifyAwaiters {s : State} (h : Inv s) (pid : Nat) : GoodT s (notif
     · exact good_notifyAll pid _ _ h
     · exact GoodT.refl h
   · exact GoodT.refl h
+
+/-! ### dead roots -/
+
+theorem countList_map_insertStored (e : Nat × Val) (l : List (Nat × Val)) (i : Nat) :
+    countList i ((insertStored e l).map (·.2)) = e.2.count i + countList i (l.map (·.2)) := by
+  induction l with
+  | nil => simp [insertStored]
+  | cons x xs ih =>
+    simp only [insertStored]
+    split
+    · simp
+    · simp [ih]; omega
+
+theorem countList_storedSorted (aw : List (Nat × Option Val)) (i : Nat) :
+    countList i ((storedSorted aw).map (·.2)) = countList i (awaitingVals aw) := by
+  induction aw with
+  | nil => simp [storedSorted, awaitingVals]
+  | cons e rest ih =>
+    obtain ⟨t, o⟩ := e
+    cases o with
+    | none => simpa [storedSorted, awaitingVals] using ih
+    | some v => simp [storedSorted, awaitingVals, countList_map_insertStored, ih]
+
+theorem count_deadRoots (p : Proc) (i : Nat) :
+    (withoutDeadRoots p).count i + countList i (deadRoots p) = p.count i := by
+  have h1 := countList_reverse p.stack i
+  have h2 := countList_storedSorted p.awaiting i
+  unfold withoutDeadRoots deadRoots
+  split
+  · simp only [Proc.count_eq, countList_append, countList_nil, h1]; omega
+  · simp only [Proc.count_eq, countList_append, countList_nil, h1, h2, selVals, awaitingVals]; omega
+
+theorem good_releaseDeadRoots {s : State} (h : Inv s) (pid : Nat) : GoodT s (releaseDeadRoots s pid) := by
+  unfold releaseDeadRoots
+  split
+  · exact GoodT.refl h
+  · rename_i p hp
+    have e2 : ∀ t vs, releaseList t vs = release t (.tuple 0 vs) := by intro t vs; simp [release]
+    rw [e2]
+    refine ⟨⟨inv_remove_release h (heapEq_setProc _ _ _) ?_, stable_release_setProc _ _ _ _⟩, ?_⟩
+    · intro i
+      have := total_setProc s pid p (withoutDeadRoots p) i hp
+      have h2 := count_deadRoots p i
+      simp only [count_tuple]; omega
+    · rw [(sameRoots_release _ _).transit]; simp [setProc]
+
+/-- after it, a process that cannot be resumed roots nothing but its result -/
+theorem roots_after_releaseDeadRoots (p : Proc) (hp : p.persistent = false) :
+    (withoutDeadRoots p).roots = Res.vals p.result := by
+  simp [withoutDeadRoots, hp, Proc.roots, selVals, awaitingVals]
+
+theorem good_notifyMessageGuarded {s : State} (h : Inv s) (id : Nat) (m : Val) (hd : List Bytes) :
+    GoodT s (notifyMessageGuarded s id m hd).1 := by
+  unfold notifyMessageGuarded
+  split
+  · split
+    · exact good_notifyMessage h id m hd
+    · exact GoodT.refl h
+  · exact GoodT.refl h
+
+/-- an undeliverable message allocates nothing (no stranded slot, no dead mailbox) -/
+theorem notifyMessageGuarded_drop {s : State} (id : Nat) (m : Val) (hd : List Bytes)
+    (hnd : ∀ p, s.getProc id = some p → deliverable p = false) : (notifyMessageGuarded s id m hd).1 = s := by
+  unfold notifyMessageGuarded
+  split
+  · rename_i p hp; simp [hnd p hp]
+  · rfl
 
 end QM.Heap
